@@ -176,6 +176,12 @@ func errClass(err error) string {
 	if strings.HasPrefix(err.Error(), "PANIC") {
 		return "panic"
 	}
+	if err == errImpure {
+		return "impure"
+	}
+	if err == errNondet {
+		return "nondeterministic"
+	}
 	return "err"
 }
 
@@ -421,7 +427,7 @@ func init() {
 		s := genSubs(newRng(uint64(atoi64(a[1])), "subs"), a[0])
 		k := int(atoi64(a[2]))
 		w := &faultWriter{cap: k}
-		err := writeWith(a[0], s, w)
+		err := writeRaw(a[0], s, w)
 		if err != nil {
 			return "err"
 		}
@@ -538,7 +544,29 @@ func (w *faultWriter) Write(p []byte) (int, error) {
 	return room, errFault
 }
 
-func writeWith(format string, s *astisub.Subtitles, w io.Writer) (err error) {
+var errImpure = errors.New("IMPURE: the writer modified the cue list it was given")
+var errNondet = errors.New("NONDET: writing the same list twice gave different bytes")
+
+// writeWith writes s in the given format - twice, with a snapshot of the list around each call: a writer
+// that modifies its input or whose second output differs is reported (C19 clauses, checked on every
+// generated list of every codec stream)
+func writeWith(format string, s *astisub.Subtitles, w io.Writer) error {
+	before := canonSubs(s)
+	var b1, b2 bytes.Buffer
+	if err := writeRaw(format, s, &b1); err != nil {
+		return err
+	}
+	if canonSubs(s) != before {
+		return errImpure
+	}
+	if err := writeRaw(format, s, &b2); err != nil || !bytes.Equal(b1.Bytes(), b2.Bytes()) {
+		return errNondet
+	}
+	_, err := w.Write(b1.Bytes())
+	return err
+}
+
+func writeRaw(format string, s *astisub.Subtitles, w io.Writer) (err error) {
 	defer func() {
 		if rec := recover(); rec != nil {
 			err = fmt.Errorf("PANIC: %v", rec)
